@@ -582,6 +582,27 @@ def o_C08(tr: Trace, c: Cfg, h: str = "S") -> Fails:
                         f.add("C08:eof-changed", {"pdu": p[:200]}, e.idx)
         if e.st.ok and e.st.state == "IDLE":
             active = False
+    # resumption: outside retransmission the step of a transaction only moves forward (a resume in an
+    # earlier step would repeat original PDUs or wait for an acknowledgement already received)
+    rank = {"SENDING_METADATA": 1, "SENDING_FILE_DATA": 2, "SENDING_EOF": 3, "WAITING_FOR_EOF_ACK": 4,
+            "WAITING_FOR_FINISHED": 5, "SENDING_ACK_OF_FINISHED": 6, "NOTICE_OF_COMPLETION": 7}
+    last, naks, disturbed = 0, 0, False
+    for e in evs:
+        if e.op == "put" and e.st.ret == "true":
+            last, naks, disturbed = 0, 0, False
+        if e.op in ("cancel", "reset") or e.flts:
+            disturbed = True
+        if not e.st.ok or e.st.state != "BUSY":
+            if e.st.ok:
+                last, naks, disturbed = 0, 0, False
+            continue
+        if e.st.step == "RETRANSMITTING":
+            naks += 1
+            continue
+        r = rank.get(e.st.step, 0)
+        if r and r < last and naks > 0 and not disturbed:
+            f.add("C08:resumed-in-earlier-step", {"step": e.st.step, "op": e.line[:160]}, e.idx)
+        last = max(last, r)
     return f
 
 
